@@ -321,7 +321,8 @@ func (c *cors) headerIsAllowed(r *http.Request) bool {
 	}
 
 	for _, v := range strings.Split(h, ",") {
-		if slices.Index(c.AllowHeaders, strings.TrimSpace(v)) < 0 {
+		v = strings.TrimSpace(v)
+		if !slices.ContainsFunc(c.AllowHeaders, func(h string) bool { return strings.EqualFold(h, v) }) { // 报头名称不区分大小写
 			return false
 		}
 	}
